@@ -17,7 +17,7 @@
    [level_rel p l] = p points to a level with the model's name and, as a map, the model's
    enforcement. *)
 From Coq Require Import List Bool String Ascii NArith ZArith.
-From NV Require Import Base Regex Generated GoLib C01_Model C01_Gen C01_GenProofs.
+From NV Require Import Base Regex Generated GoLib C01_Model C01_Gen C01_GenProofs C01_GenDesc.
 Import ListNotations.
 Local Open Scope string_scope.
 Local Open Scope list_scope.
@@ -191,3 +191,118 @@ Theorem C01_gen_oci_no_configuration_helps : forall sv env rest touch md desc pa
   sv_lvl sv = "skip" /\ sv_ov sv = [].
 Proof. exact gen_oci_no_configuration_helps. Qed.
 Print Assumptions C01_gen_oci_no_configuration_helps.
+
+(* ---------- the blob descriptor generator of notation.VerifyBlob (clauses 2b, 6, 8) ----------
+   notation.getDescriptorFunc and notation.addUserMetadataToDescriptor. Oracles, quantified in every
+   statement: digest.Algorithm.Digester [nd], Digester.Hash [hs], Digester.Digest [dd], io.Copy [cp],
+   hash.Hash as io.Writer [up]; the blob reader is an opaque value. Proofs: theories/C01_GenDesc.v. *)
+
+Theorem C01_gen_reserved_prefixes_pinned :
+  notation_go_reservedAnnotationPrefixes = gen_reserved_annotation_prefixes.
+Proof. exact gen_reserved_prefixes_pinned. Qed.
+Print Assumptions C01_gen_reserved_prefixes_pinned.
+
+(* for ALL required maps, on a descriptor without annotations: the model's [add_user_metadata] *)
+Theorem C01_gen_addUserMetadataToDescriptor_equiv : forall desc md,
+  Descriptor_Annotations desc = [] ->
+  match add_user_metadata [] (md_of md) with
+  | Some ann => gen_notation_go_addUserMetadataToDescriptor desc md = (set_Descriptor_Annotations ann desc, None)
+  | None => exists d x, gen_notation_go_addUserMetadataToDescriptor desc md = (d, Some x)
+  end.
+Proof. exact gen_addUserMetadataToDescriptor_equiv. Qed.
+Print Assumptions C01_gen_addUserMetadataToDescriptor_equiv.
+
+(* NO hypothesis about the oracles: ONE digester for the algorithm asked for; the reader and that
+   digester's hash go to io.Copy; io.Copy's error aborts; otherwise media type as stated, digest of
+   THAT digester, size = the count io.Copy reports; then the required metadata is added.
+   (Hashing the blob in any other way changes the generated definition and breaks this proof.) *)
+Theorem C01_gen_getDescriptorFunc_spec :
+  forall (Digester Hash Writer Reader : Type) nd hs dd cp up reader mt md alg,
+  g_getDescriptorFunc Digester Hash Writer Reader nd hs dd cp up reader mt md alg
+  = let dg := nd alg in
+    match cp (up (hs dg)) reader with
+    | (_, Some e) => (fresh_desc "" "" 0, Some e)
+    | (n, None) => gen_notation_go_addUserMetadataToDescriptor (fresh_desc mt (dd dg) n) md
+    end.
+Proof. exact gen_getDescriptorFunc_spec. Qed.
+Print Assumptions C01_gen_getDescriptorFunc_spec.
+
+(* for ANY reader: if io.Copy and the digester do what they promise for it — [stream] = all bytes the
+   reader delivers before io.EOF (None: it fails first), io.Copy reports their number, the digester
+   their digest [h alg bytes] — the descriptor is the one of the WHOLE stream: digest over all bytes
+   delivered, size their number; a failing reader yields an error, never a descriptor of a prefix *)
+Theorem C01_gen_getDescriptorFunc_whole_stream :
+  forall (Digester Hash Writer Reader : Type) nd hs dd cp up
+         (h : string -> list Z -> string) (stream : option (list Z)) reader mt md alg,
+  (match stream with
+   | Some bs => cp (up (hs (nd alg))) reader = (Z.of_nat (List.length bs), None) /\ dd (nd alg) = h alg bs
+   | None => exists n e, cp (up (hs (nd alg))) reader = (n, Some e)
+   end) ->
+  match stream with
+  | Some bs =>
+      match add_user_metadata [] (md_of md) with
+      | Some ann => g_getDescriptorFunc Digester Hash Writer Reader nd hs dd cp up reader mt md alg
+                    = (mk_Descriptor mt (h alg bs) (Z.of_nat (List.length bs)) [] ann [] PNil "", None)
+      | None => exists d x, g_getDescriptorFunc Digester Hash Writer Reader nd hs dd cp up reader mt md alg = (d, Some x)
+      end
+  | None => exists d x, g_getDescriptorFunc Digester Hash Writer Reader nd hs dd cp up reader mt md alg = (d, Some x)
+  end.
+Proof. exact gen_getDescriptorFunc_whole_stream. Qed.
+Print Assumptions C01_gen_getDescriptorFunc_whole_stream.
+
+(* against the model's [top_gen] (the generator inside [notation_verify_blob]); hypotheses: the
+   model's inputs b_read_ok / b_size / digest_of are what io.Copy and the digester answered *)
+Theorem C01_gen_getDescriptorFunc_is_top_gen :
+  forall (Digester Hash Writer Reader : Type) nd hs dd cp up reader md alg (b : blobin) (a : dalg),
+  b_read_ok b = is_none (snd (cp (up (hs (nd alg))) reader)) ->
+  (b_read_ok b = true ->
+   fst (cp (up (hs (nd alg))) reader) = b_size b /\ dd (nd alg) = digest_of b a) ->
+  match top_gen b (md_of md) a with
+  | Some t => exists d, g_getDescriptorFunc Digester Hash Writer Reader nd hs dd cp up reader (b_mt b) md alg = (d, None)
+                        /\ target_of d = t
+  | None => exists d x, g_getDescriptorFunc Digester Hash Writer Reader nd hs dd cp up reader (b_mt b) md alg = (d, Some x)
+  end.
+Proof. exact gen_getDescriptorFunc_is_top_gen. Qed.
+Print Assumptions C01_gen_getDescriptorFunc_is_top_gen.
+
+(* notation.VerifyBlob, the whole function, with NO hypothesis about oracles, verifier or reader:
+   order of the argument checks; the verifier is called once with the generator
+   [g_getDescriptorFunc] over the SAME reader, the stated media type and the caller's metadata;
+   its error passes through with the zero descriptor; skipped outcome -> zero descriptor; else the
+   decoded target of the verified payload. None = panic: the verifier returned (nil, nil). *)
+Theorem C01_gen_notation_VerifyBlob_spec :
+  forall (Digester Hash Writer Reader : Type) nd hs dd cp up (Cert : Type) parse_mt unmarshal pbv prd sig opts,
+  let mt := VerifyBlobOptions_ContentMediaType opts in
+  let vopts := VerifyBlobOptions_BlobVerifierVerifyOptions opts in
+  g_VerifyBlob Digester Hash Writer Reader nd hs dd cp up Cert parse_mt unmarshal pbv prd sig opts
+  = match ptr_val pbv, ptr_val prd with
+    | None, _ => Some (zero_desc, PNil, Some (Err "errors" "blobVerifier cannot be nil" []))
+    | Some _, None => Some (zero_desc, PNil, Some (Err "errors" "blobReader cannot be nil" []))
+    | Some bv, Some _ =>
+        if (list_len sig =? 0)%Z then Some (zero_desc, PNil, Some (Err "errors" "signature cannot be nil or empty" []))
+        else match gen_notation_go_validateContentMediaType parse_mt mt with
+        | Some e => Some (zero_desc, PNil, Some e)
+        | None =>
+        match gen_notation_go_validateSigMediaType (BlobVerifierVerifyOptions_SignatureMediaType vopts) with
+        | Some e => Some (zero_desc, PNil, Some e)
+        | None =>
+        match bv (g_getDescriptorFunc Digester Hash Writer Reader nd hs dd cp up prd mt
+                    (BlobVerifierVerifyOptions_UserMetadata vopts)) sig vopts with
+        | (_, Some e) => Some (zero_desc, PNil, Some e)
+        | (vo, None) =>
+            match ptr_val vo with
+            | None => None
+            | Some o =>
+                match ptr_val (VerificationOutcome_EnvelopeContent _ o) with
+                | None => Some (zero_desc, vo, None)
+                | Some c =>
+                    match unmarshal (Payload_Content (EnvelopeContent_Payload _ c)) (mk_Payload zero_desc) with
+                    | (_, Some e) => Some (zero_desc, PNil, Some e)
+                    | (p, None) => Some (Payload_TargetArtifact p, vo, None)
+                    end
+                end
+            end
+        end end end
+    end.
+Proof. exact gen_notation_VerifyBlob_spec. Qed.
+Print Assumptions C01_gen_notation_VerifyBlob_spec.
